@@ -156,6 +156,11 @@ class DatasetSetItem(Contract):
         yield "the-assigned-array-itself-is-untouched", S.land(
             val.values is env["vdata"], len(val.axes) == len(env["vaxes"]), all(a is b for a, b in zip(val.axes, env["vaxes"])),
             *[val.axes[i].values is env["vlabels"][d] for i, d in enumerate(case["vd"])])
+        # the dataset's axes are its OWN: later renaming / relabelling through the dataset must not reach the caller's array (nor
+        # another dataset the same array was given to)
+        yield "no-axis-object-or-label-buffer-shared-with-the-assigned-array", S.land(
+            all(ax is not bx for ax in ds.axes for bx in env["vaxes"]),
+            *[S.lnot(S.same_buffer(ax.values, bx.values)) for ax in ds.axes for bx in env["vaxes"]])
         for k in snap["keys"]:
             if k != key:
                 yield "other-variable-%s-kept" % k, S.land(dict.__getitem__(ds, k) is snap["vars"][k], S.forall_nd(
